@@ -14,7 +14,7 @@
 //@ check w_c02_dispatch   kind=bounded bound=fixed-script-of-22-commands fn=run_on
 //@ check w_c03_responses  kind=bounded bound=11-writer-programs,text-and-binary fn=run_on
 //@ check w_c04_big        kind=bounded bound=row-sizes-k*(2^24-1)+d,k<=2,d-in-{-5..5},also-1000,text-and-binary-rows fn=run_on
-//@ check w_c05_seq        kind=bounded bound=request-ids-{0,1,100,254,255},responses-up-to-600-packets fn=run_on
+//@ check w_c05_seq        kind=bounded bound=request-ids-{0,1,100,253,254,255},responses-up-to-600-packets,responses-filling-one-and-two-maximal-packets-exactly fn=run_on
 //@ check w_c07_binary     kind=bounded bound=column-counts-{1,6,7,14,15,30},null-patterns-alternating-and-all fn=run_on
 //@ check w_c08_params     kind=bounded bound=9-parameter-types,null-patterns,rebind-and-reuse fn=run_on
 //@ check w_c09_meta       kind=bounded bound=column-counts-{0,1,3,251,300},names-up-to-70000-bytes,all-16-flag-bits fn=run_on
@@ -818,8 +818,11 @@ fn w_c04_big() {
 #[test]
 fn w_c05_seq() {
     let mut cases = 0;
-    for s in [0u8, 1, 100, 254, 255] {
-        for q in ["ok:1:1", "rs:1:300", "rs:2:600"] {
+    for s in [0u8, 1, 100, 253, 254, 255] {
+        // (the last two: a row that fills a maximal packet exactly, so that an empty packet closes it, and
+        // one that needs two maximal packets)
+        for q in ["ok:1:1", "rs:1:300", "rs:2:600", "big:16777211", "big:33554426"] {
+            if q.starts_with("big") && s != 0 && s != 253 && s != 255 { continue; }
             let r = converse(hs41(b"u", 0), &[(c_query(q.as_bytes()), s), quit()], vec![], false, None, None);
             assert!(r.result.is_ok(), "[C05.w.run] request id {} failed: {:?}", s, r.result);
             let raw = raw_packets(&r.out).expect("[C04.w.frame] not on a packet boundary");
